@@ -143,6 +143,14 @@ ApiBody(cfg, S, f, a) ==
     [] f = "is_full"   -> [s |-> S, ret |-> IF RingFull(cfg, S) THEN S_FULL ELSE S_OK]
     [] f = "is_buffered" -> [s |-> S, ret |-> IsBuffered(cfg, S, a[1], a[2])]
     [] f = "processed" -> [s |-> S, ret |-> IF a[1] = 0 THEN S.cmd ELSE S.ucmd]
+    \* the three lookups by name: exact, case-sensitive, first match in registration order, -1 when absent
+    [] f = "search_cmd" -> LET hit == {c \in 0..(NCmds(cfg) - 1) : CmdOf(cfg, c).name = a} IN
+                           [s |-> S, ret |-> IF hit = {} THEN -1 ELSE CHOOSE c \in hit : \A d \in hit : c <= d]
+    [] f = "search_grp" -> LET hit == {g \in 0..(Len(cfg.groups) - 1) : cfg.groups[g + 1].hasname /\ cfg.groups[g + 1].name = a} IN
+                           [s |-> S, ret |-> IF hit = {} THEN -1 ELSE CHOOSE g \in hit : \A d \in hit : g <= d]
+    [] f = "search_var" -> LET c == a[1]  nm == Tail(a)
+                               hit == {v \in 0..(NVars(cfg, c) - 1) : VarOf(cfg, c, v).hasname /\ VarOf(cfg, c, v).name = nm} IN
+                           [s |-> S, ret |-> IF hit = {} THEN -1 ELSE CHOOSE v \in hit : \A d \in hit : v <= d]
 
 Locking(f) == f \in {"trigger", "hold_exit", "is_busy", "is_hold", "is_full"}
 
